@@ -130,7 +130,10 @@ macro_rules! views {
             for r in 0..3 { bound[12 + r] = k * (en + 1.0) * 2.0; }
             bound[3] = 0.0; bound[7] = 0.0; bound[11] = 0.0; bound[15] = 0.0;
             // a far-away focal point along dir for the look_at forms
-            let center = eye + dir * (2.5 as $S);
+            // focal points along dir at several distances, among them values within 1e-4 of 1 (where a
+            // "nearly unit already" shortcut for center - eye would bite)
+            let fdist = [2.5, 1.00005, 0.9999, 1e-2, 300.0][(idx % 5) as usize];
+            let center = eye + dir * (fdist as $S);
             let cs = [center.x as f64, center.y as f64, center.z as f64];
             let want_at = view_ref(rh, &es, &sub(&cs, &es), &us);
             $(
@@ -245,10 +248,11 @@ macro_rules! projections {
         // orthographic boxes
         let gx = [-10.0, -1.0, 0.5, 2.0, 100.0];
         let gz = [0.1, 1.0, 2.0, 50.0, 1000.0];
-        $rep.sweep(&format!("{tn}/orthographic_*/5^6 boxes (non-empty) x 3 variants"), 15625 * 3, |idx, acc| {
+        $rep.sweep(&format!("{tn}/orthographic_*/5^6 boxes (non-empty, either x / y orientation) x 3 variants"), 15625 * 3, |idx, acc| {
             let d = digits(idx, [5, 5, 5, 5, 5, 5, 3]);
             let (l, r, b, t, n, f) = (gx[d[0]] as $S, gx[d[1]] as $S, gx[d[2]] as $S, gx[d[3]] as $S, gz[d[4]] as $S, gz[d[5]] as $S);
-            if !(l < r && b < t && n < f) {
+            // every box with non-empty extent, also with inverted x / y extents (y-down screen boxes)
+            if !(l != r && b != t && n < f) {
                 return;
             }
             let (lf, rf, bf, tf, nf_, ff) = (l as f64, r as f64, b as f64, t as f64, n as f64, f as f64);
@@ -259,8 +263,8 @@ macro_rules! projections {
             };
             let g = cols4(&m);
             let ctx = || format!("{name}({lf}, {rf}, {bf}, {tf}, {nf_}, {ff})");
-            let cx = (lf.abs() + rf.abs()) / (rf - lf);
-            let cy = (bf.abs() + tf.abs()) / (tf - bf);
+            let cx = (lf.abs() + rf.abs()) / (rf - lf).abs();
+            let cy = (bf.abs() + tf.abs()) / (tf - bf).abs();
             let cz = (nf_.abs() + ff.abs()) / (ff - nf_);
             let mut bound = vec![0.0; 16];
             bound[0] = 8.0 * eps * (1.0 + cx) * want.a[0].abs();
